@@ -40,6 +40,9 @@ Fixpoint env_ok_from (s : state) (ops : list op) : Prop :=
   match ops with
   | [] => True
   | o :: rest => (is_env_op o = true -> inv_okb (ledgers (fst (step s o))) = true)
+                 /\ match o with
+                    | OSchedule _ rq => sched_ok (nkind s) (ledgers s) rq = true
+                    | _ => True end
                  /\ env_ok_from (fst (step s o)) rest
   end.
 Lemma no_overcommit_from s ops :
@@ -47,7 +50,7 @@ Lemma no_overcommit_from s ops :
   inv_ok (ledgers (exec_from s ops)).
 Proof.
   revert s. induction ops as [|o ops IH]; intros s U W I H E; cbn [exec_from fold_left]; auto.
-  cbn [forallb] in H. apply andb_prop in H as [Ho H]. destruct E as [E1 E2].
+  cbn [forallb] in H. apply andb_prop in H as [Ho H]. destruct E as [E1 [Es E2]].
   destruct (step_good s o U) as [U' W']. apply IH; auto.
   destruct (is_env_op o) eqn:Eo.
   - apply inv_okb_spec. now apply E1.
@@ -66,20 +69,22 @@ Qed.
 (* the allocator, on any reachable state *)
 Lemma alloc_sound_all ops rq da t :
   forallb op_wf ops = true -> (t < 3)%nat ->
-  allocate (ledgers (exec ops)) (infos (exec ops)) rq = ADone da ->
+  sched_ok (nkind (exec ops)) (ledgers (exec ops)) rq = true ->
+  allocate (nkind (exec ops)) (ledgers (exec ops)) (infos (exec ops)) rq = ADone da ->
   alloc_sound_t (ledgers (exec ops)) (infos (exec ops)) t rq (allocs_of da t) = true.
 Proof.
-  intros H Ht A. apply type_done_sound; [now apply reachable_lgood|].
+  intros H Ht So A. apply (type_done_sound (nkind (exec ops))); [now apply reachable_lgood|auto|].
   eapply allocate_done; eauto. intros t'. now apply reachable_lgood.
 Qed.
 Lemma alloc_complete_all ops rq code :
   forallb op_wf ops = true ->
-  allocate (ledgers (exec ops)) (infos (exec ops)) rq = AFail code ->
+  allocate (nkind (exec ops)) (ledgers (exec ops)) (infos (exec ops)) rq = AFail code ->
   (code = c_unresolvable /\
    (existsb (fun t => is_invalid (treq_of rq t)) type_ids
-    || existsb (fun t => no_device_t (ledgers (exec ops)) t rq) type_ids) = true)
+    || existsb (fun t => no_device_t (ledgers (exec ops)) t rq) type_ids
+    || part_unsupported (nkind (exec ops)) (treq_of rq 0)) = true)
   \/ (code = c_unsched /\
-      existsb (fun t => alloc_short_t (ledgers (exec ops)) (infos (exec ops)) t rq) type_ids = true).
+      existsb (fun t => alloc_short_t (nkind (exec ops)) (ledgers (exec ops)) (infos (exec ops)) t rq) type_ids = true).
 Proof.
   intros H A. eapply allocate_fail; eauto. intros t. now apply reachable_lgood.
 Qed.
@@ -87,19 +92,23 @@ Qed.
 (* the preemption dry-run, on any reachable state *)
 Lemma preempt_sound_all ops rq t per count sh victims al :
   forallb op_wf ops = true -> treq_of rq t = TReq per count sh ->
-  alloc_type_on (ledgers (exec ops)) (infos (exec ops)) t per count sh victims = Some al ->
+  sched_ok (nkind (exec ops)) (ledgers (exec ops)) rq = true ->
+  alloc_type_on (nkind (exec ops)) (ledgers (exec ops)) (infos (exec ops)) t per count sh victims = Some al ->
   (desired_count count <=
    maybe_count (preempt_ledger (ledger_of (ledgers (exec ops)) t) victims)
                (minors_of (infos (exec ops)) t) per)%nat.
 Proof.
-  intros H E A. apply treq_spec in E as [Hc _].
+  intros H E So A. pose proof (sched_ok_pfit _ _ _ _ _ _ _ So E) as Pf. apply treq_spec in E as [Hc _].
   eapply alloc_type_on_sound; eauto. now apply reachable_lgood.
 Qed.
 Lemma preempt_complete_all ops rq t per count sh victims :
   forallb op_wf ops = true -> treq_of rq t = TReq per count sh ->
-  alloc_type_on (ledgers (exec ops)) (infos (exec ops)) t per count sh victims = None ->
+  alloc_type_on (nkind (exec ops)) (ledgers (exec ops)) (infos (exec ops)) t per count sh victims = None ->
   (eligible_count (preempt_ledger (ledger_of (ledgers (exec ops)) t) victims)
-                  (minors_of (infos (exec ops)) t) per < desired_count count)%nat.
+                  (minors_of (infos (exec ops)) t) per < desired_count count)%nat \/
+  (t = 0%nat /\
+   part_short (nkind (exec ops)) (preempt_ledger (ledger_of (ledgers (exec ops)) t) victims)
+              (minors_of (infos (exec ops)) t) count sh = true).
 Proof.
   intros H E A. apply treq_spec in E as [Hc _].
   eapply alloc_type_on_complete; eauto. now apply reachable_lgood.
@@ -143,13 +152,37 @@ Proof.
     { intros [x|] [y|] Hxy; cbn in Hxy; try discriminate; auto. apply Z.eqb_eq in Hxy. now subst. }
     split; now apply Eq.
 Qed.
-Lemma alloc_short_t_spec ls infos t rq :
-  alloc_short_t ls infos t rq = true ->
+Lemma alloc_short_t_spec kind ls infos t rq :
+  alloc_short_t kind ls infos t rq = true ->
   exists per count sh, treq_of rq t = TReq per count sh /\
-    (eligible_count (ledger_of ls t) (minors_of infos t) per < desired_count count)%nat.
+    ((eligible_count (ledger_of ls t) (minors_of infos t) per < desired_count count)%nat \/
+     (t = 0%nat /\ part_short kind (ledger_of ls t) (minors_of infos t) count sh = true)).
 Proof.
   unfold alloc_short_t. destruct (treq_of rq t) as [| |per count sh]; try discriminate.
-  intros H. apply Nat.ltb_lt in H. eauto.
+  intros H. exists per, count, sh. split; auto. apply orb_true_iff in H as [H|H].
+  - left. now apply Nat.ltb_lt.
+  - right. apply andb_prop in H as [H1 H2]. apply Nat.eqb_eq in H1. auto.
+Qed.
+(* what a refusal for lack of partitions means: honoured partition policy, a whole-GPU request,
+   and no partition of the requested size made of listed, healthy, entirely free GPUs *)
+Lemma part_short_spec kind l minors count sh :
+  part_short kind l minors count sh = true ->
+  honor_part kind = true /\ sh = false /\
+  forall ps p, hopper_table (desired_count count) = Some ps -> In p ps ->
+    exists m, In m p /\ part_free_minor l minors m = false.
+Proof.
+  unfold part_short. rewrite !andb_true_iff. intros [[H1 H2] H3]. apply negb_true_iff in H2.
+  repeat split; auto. intros ps p E Hp. rewrite E in H3. rewrite forallb_forall in H3.
+  specialize (H3 p Hp). apply negb_true_iff in H3.
+  destruct (forallb (part_free_minor l minors) p) eqn:F; [discriminate|].
+  assert (X : ~ (forall m, In m p -> part_free_minor l minors m = true)).
+  { intros A. rewrite <- forallb_forall in A. congruence. }
+  clear F H3 Hp E. induction p as [|m p IH]; [exfalso; apply X; intros m []|].
+  destruct (part_free_minor l minors m) eqn:Fm.
+  - destruct IH as [m' [Hm' Fm']].
+    + intros A. apply X. intros m0 [<-|H0]; auto.
+    + exists m'. split; auto. now right.
+  - exists m. split; auto. now left.
 Qed.
 
 (* duplicate events are no-ops *)
@@ -166,7 +199,7 @@ Qed.
 Lemma check_step_sound k o out ls t :
   check_step k o (out, ls) = 0 -> k_wf k && op_wf o = true -> (t < 3)%nat ->
   free_eq (ledger_of ls t) /\ used_eq_sum (ledger_of ls t) /\
-  (k_env k && (negb (is_env_op o) || inv_okb ls) = true -> no_overcommit (ledger_of ls t)).
+  (k_env k && (negb (is_env_op o) || inv_okb ls) && step_ok k o = true -> no_overcommit (ledger_of ls t)).
 Proof.
   intros C Hw Ht. unfold check_step in C. rewrite Hw in C. cbn [negb orb andb first_nz fold_right] in C.
   assert (In t type_ids) by (destruct t as [|[|[|t]]]; cbn; auto; lia).
@@ -209,11 +242,24 @@ Lemma refuted_shrink :
   forallb op_wf shrink_ops = true /\ no_overcommitb (ledger_of (ledgers (exec shrink_ops)) 1) = false.
 Proof. vm_compute. split; reflexivity. Qed.
 
+(* a node with the Hopper partition table and the Honor policy, GPU 1 unhealthy: a 2-GPU request
+   gets the partition {2,3}, never {0,1}; a 3-GPU request is unsupported *)
+Definition part_ops : list op :=
+  [ONodeKind 1;
+   ORefresh [gpu_dev 0; mkInfo 0 1 false (mkRes (Some 100) (Some 100) (Some 16000)) (-1) 0;
+             gpu_dev 2; gpu_dev 3; gpu_dev 4; gpu_dev 5; gpu_dev 6; gpu_dev 7];
+   OSchedule 0 (mkRaw 0 0 0 0 2 0 0); OSchedule 1 (mkRaw 0 0 0 0 3 0 0)].
+Lemma part_demo :
+  forallb op_wf part_ops = true /\
+  map (fun ob => (o_code (fst ob), map fst (allocs_of (o_allocs (fst ob)) 0))) (run part_ops)
+  = [(0, []); (0, []); (0, [2%nat; 3%nat]); (2, [])].
+Proof. vm_compute. split; reflexivity. Qed.
+
 (* the allocator does not look at request keys the device does not expose: a GPU without a
    gpu-core key is granted to a pod asking for gpu-core *)
 Definition unexposed_ops : list op :=
   [ORefresh [mkInfo 0 0 true (mkRes None (Some 100) (Some 16000)) (-1) 0]].
 Lemma unexposed_granted :
-  allocate (ledgers (exec unexposed_ops)) (infos (exec unexposed_ops)) (req_koord 50)
+  allocate 0 (ledgers (exec unexposed_ops)) (infos (exec unexposed_ops)) (req_koord 50)
   = ADone [[(0%nat, mkRes (Some 50) (Some 50) (Some 8000))]; []; []].
 Proof. vm_compute. reflexivity. Qed.
